@@ -225,7 +225,8 @@ def run(ctx):
     ctx.rule = ('every history of LazyCatalog.tla of the configured depth containing at least one Index (or extra-property operation), replayed on '
                 'SourceCatalog (with/without detection catalog) and ApertureStats; non-trivial = some property kind evaluated before an Index; '
                 'all public properties compared per source after every Index and at the end')
-    r = ctx.mc('LazyCatalog', 'MC_LazyCatalog.cfg', workers=16)
+    r = ctx.mc('LazyCatalog', 'MC_LazyCatalog.cfg', workers=16, coverage=True)
+    ctx.need_coverage('LazyCatalog', r, ['Eval', 'Index', 'AddExtra', 'RemoveExtra', 'GetAbsent'])
     bad = ctx.mc('LazyCatalog', 'MC_LazyCatalog_pinned.cfg', workers=2, expect_hold=False, check_ok=False)
     if 'Independent' not in bad.violated:
         raise core.Machinery('vacuity guard: shared-registry variant not rejected')
